@@ -630,6 +630,9 @@ impl Assembler for IntervalAssembler {
             ; shr     r8, 32
             ; cmp     eax, r8d
             ; jne >N
+            // a zero of either sign could stand for the other one
+            ; test    eax, 0x7fffffff
+            ; jz >N
 
             // check rhs.lower.to_bits() == rhs.upper.to_bits()
             ; movq    r8, Rx(reg(rhs_reg))
@@ -637,6 +640,8 @@ impl Assembler for IntervalAssembler {
             ; shr     r9, 32
             ; cmp     r8d, r9d
             ; jne >N
+            ; test    r8d, 0x7fffffff
+            ; jz >N
 
             // check for NaNs in lhs and rhs (less likely)
             ; vcomiss Rx(reg(lhs_reg)), Rx(reg(lhs_reg))
@@ -694,6 +699,9 @@ impl Assembler for IntervalAssembler {
             ; shr     r8, 32
             ; cmp     eax, r8d
             ; jne >N
+            // a zero of either sign could stand for the other one
+            ; test    eax, 0x7fffffff
+            ; jz >N
             ; vcomiss Rx(reg(arg_reg)), Rx(reg(arg_reg))
             ; jp >N  // NaN sets the parity flag
 
